@@ -283,6 +283,10 @@ def run_extension(ctx, stats):
     gres = [VO.run_guard(g) for g in guards]
     floats = [VO.gen_float_case(ctx.rng, q) for _ in range(nfloat)]
     fres = [VO.run_float(c) for c in floats]
+    nlarge = 3 if q else 12
+    larges = [VO.gen_large_session(ctx.rng) for _ in range(nlarge)]
+    lres = [VO.run_session(c) for c in larges]
+    sigmsg = VO.signature_problem()
     nthr = 150 if q else 1000
     thrs = [VO.gen_thr_case(ctx.rng, q) for _ in range(nthr)]
     tres = [VO.run_thr(c) for c in thrs]
@@ -327,6 +331,20 @@ def run_extension(ctx, stats):
                                dict(case=dict(kind="session", **sess[i]), observed=sres[i],
                                     correspondence="sess_ok / calib_case_ok (Model/VorObj.v, Model/VorCalib.v)"),
                                found_input=False)
+    for i in range(nlarge):
+        # 300-400 points, cold fit below 256 selections, warm start past 256: oracle only (the object
+        # model is quadratic per step in Coq: ~7 min for one such session)
+        msg = VO.session_oracle(larges[i], lres[i])
+        narrow = [r["narrow_labels"] for r in lres[i]["calls"] if "narrow_labels" in r]
+        if msg:
+            C.report_violation(ctx, "C06 fails on the implementation: " + msg,
+                               dict(case=dict(kind="session", **larges[i]), observed=lres[i]), found_input=True)
+        elif narrow:
+            C.report_violation(ctx, "correspondence broken: " + narrow[0] + " (the model's labels are unbounded)",
+                               dict(case=dict(kind="session", **larges[i]), observed=lres[i]), found_input=False)
+    if sigmsg:
+        C.report_violation(ctx, "correspondence broken: " + sigmsg + " — positional construction no longer means what the "
+                                "documented signature says", dict(signature=sigmsg), found_input=False)
     for i in range(nguard):
         msg = VO.guard_oracle(guards[i], gres[i])
         if msg:
@@ -385,6 +403,13 @@ def run_extension(ctx, stats):
             refit += 1
         seen.add(key)
     st["calibrated_values"] = len(st["calibrated_values"])
+    st["positional_construction"] = dict(
+        sessions=sum(1 for c in sess if c.get("positional")), guards=sum(1 for c in guards if c.get("positional")),
+        thresholds=sum(1 for c in thrs if c.get("positional")), real_valued=sum(1 for c in floats if c.get("positional")),
+        large=sum(1 for c in larges if c.get("positional")), signature_matches_documented=sigmsg is None)
+    st["large_count_sessions"] = dict(
+        total=nlarge, warm_past_256=sum(1 for r in lres if len(r["calls"]) == 2 and r["calls"][1].get("k", 0) > 256),
+        n=[len(c["data"][0]["X"]) for c in larges], counts=[[cc["nts"] for cc in c["calls"]] for c in larges])
     st["threshold_cases"] = dict(
         total=nthr,
         relative_reached=sum(1 for c, r in zip(thrs, tres) if c["thr_type"] == "relative" and r.get("stopped")),
@@ -396,7 +421,7 @@ def run_extension(ctx, stats):
             1 for c, r in zip(thrs, tres) if c["thr_type"] == "relative" and r.get("dist") and
             max(r["dist"]) * 2.0 ** (2 * c["sp"]) < c["num"] / c["den"]))
     stats["round3"] = st
-    return dict(evaluations=nsess + nguard + nfloat + nthr, nontrivial=refit,
+    return dict(evaluations=nsess + nguard + nfloat + nthr + nlarge, nontrivial=refit,
                 validated=nsess - len(bad_sess) + nguard - len(bad_guard) + nthr - len(bad_thr))
 
 
